@@ -25,7 +25,8 @@ SECRETS = ["", "a", "b", "A", "a ", "aa", "é", "é", "a\x00", {"$": "bigstr", 
            "hunter2-ZQX", "pässwörd-ÜÑ", "user:pass", "abcd:efgh", ":", "QUJD:QUJD", "sysadmin:hunter22", "{\"salt\": \"x\"}"]
 FORMATS = ["json", "yaml", "xml", "bson", "pickle"]
 ROUTES = ["attr", "ctor", "default", "default-callable", "digest-default", "load_tree", "document", "document-yaml", "document-xml", "list-assign", "list-append",
-          "dict-item", "list-from-str-proxy", "list-extend-str-proxy", "list-iadd-any-proxy", "sub-document-xml"]
+          "dict-item", "dict-setdefault", "dict-update", "dict-ior", "dict-assign", "list-insert", "list-setitem", "list-setslice", "list-extend", "list-iadd",
+          "list-from-str-proxy", "list-extend-str-proxy", "list-iadd-any-proxy", "sub-document-xml"]
 
 
 def bounds(tier):
@@ -111,6 +112,32 @@ def _place(schema, route, p, alg):
     if route == "dict-item":
         cfg = schema(); cfg.d = {}; cfg.d["k"] = p
         return cfg, lambda c: c.d["k"]
+    if route.startswith("dict-"):
+        cfg = schema()
+        if route == "dict-assign":
+            cfg.d = {"k": p}
+        else:
+            cfg.d = {}
+            if route == "dict-setdefault":
+                cfg.d.setdefault("k", p)
+            elif route == "dict-update":
+                cfg.d.update({"k": p})
+            else:
+                cfg.d |= {"k": p}
+        return cfg, lambda c: c.d["k"]
+    if route in ("list-insert", "list-setitem", "list-setslice", "list-extend", "list-iadd"):
+        cfg = schema(); cfg.l = []
+        if route == "list-insert":
+            cfg.l.insert(0, p)
+        elif route == "list-setitem":
+            cfg.l.append("placeholder-secret"); cfg.l[0] = p
+        elif route == "list-setslice":
+            cfg.l[0:0] = [p]
+        elif route == "list-extend":
+            cfg.l.extend([p])
+        else:
+            cfg.l += [p]
+        return cfg, lambda c: c.l[0]
     raise ValueError(route)
 
 
@@ -124,6 +151,7 @@ def check_digest(ctx, bad, alg, dv, p, others, salts, where):
         bad("salt-length", "%s: salt has %d bytes, digest size is %d" % (where, len(dv.salt), h().digest_size))
     if dv.digest != h(dv.salt + enc(p)).digest():
         bad("digest-not-hash-of-salt-plus-secret", "%s: digest is not %s(salt + secret)" % (where, alg))
+    held_before = (tuple(dv), sorted(getattr(dv, "__dict__", {}).items(), key=repr))
     try:
         dv.challenge(p)
     except Exception as exc:  # noqa
@@ -131,13 +159,22 @@ def check_digest(ctx, bad, alg, dv, p, others, salts, where):
     for q in others:
         if enc(q) == enc(p):
             continue
-        try:
-            dv.challenge(q)
-            bad("challenge-accepts-other", "%s: challenge(%s) succeeded for secret %s" % (where, V.show(q, 30), V.show(p, 30)))
-        except ValueError:
-            pass
-        except Exception as exc:  # noqa
-            bad("challenge-wrong-exception", "%s: failed challenge raised %s, not ValueError" % (where, type(exc).__name__))
+        for attempt in (1, 2):       # the same wrong secret presented again must be refused again
+            try:
+                dv.challenge(q)
+                bad("challenge-accepts-other" + ("" if attempt == 1 else "|repeated"),
+                    "%s: challenge(%s) succeeded (attempt %d) for secret %s" % (where, V.show(q, 30), attempt, V.show(p, 30)))
+            except ValueError:
+                pass
+            except Exception as exc:  # noqa
+                bad("challenge-wrong-exception", "%s: failed challenge raised %s, not ValueError" % (where, type(exc).__name__))
+    try:
+        dv.challenge(p)
+    except Exception as exc:  # noqa
+        bad("challenge-rejects-secret|after-failures", "%s: challenge with the secret after failed challenges raised %r" % (where, exc))
+    held_after = (tuple(dv), sorted(getattr(dv, "__dict__", {}).items(), key=repr))
+    if held_after != held_before:
+        bad("challenge-changes-value", "%s: challenging changed what the value holds: %s" % (where, V.show(held_after, 80)))
     if salts is not None:
         if dv.salt in salts:
             bad("salt-reused", "%s: salt %s was used before" % (where, dv.salt.hex()[:16]))
